@@ -184,6 +184,12 @@ NOT_YET = {}
 
 ALL = ['C%02d' % i for i in range(1, 21)]
 
+LEMMAS = {
+    'C01': 'K-read', 'C03': 'K-taste-good', 'C04': 'K-taste-bad', 'C05': 'K-strain', 'C06': 'K-combine', 'C07': 'K-expand', 'C08': 'K-expand', 'C09': 'K-pestle-seek',
+    'C10': 'K-whip, K-expand', 'C15': 'K-scan', 'C16': 'K-chunk', 'C17': 'K-ghost', 'C20': 'K-taste-good, K-taste-bad, K-read',
+}
+CONF = {'C01', 'C02', 'C03', 'C04', 'C05', 'C06', 'C07', 'C08', 'C09', 'C10', 'C11', 'C14', 'C15', 'C16', 'C20'}
+
 
 def main():
     checks = []
@@ -198,9 +204,12 @@ def main():
             'evidence_file': 'evidence/%s.json' % pid,
             'replay_cmd_template': './check %s --replay {path}' % pid,
             'engine': 'symx',
-            'level_claimed': {'category': 'model_checking', 'text': c['text'], 'design_ref': 'DESIGN.md section ' + c['design']},
-            'level_note': c['note'],
-            'technique': c['technique'],
+            'level_claimed': {'category': 'model_checking', 'text': c['text'] + (
+                ' Tier K lemma(s) %s decide the leaf kernels\' seek / count / offset arithmetic for symbolic extents (<= 2^20 per axis), component counts and offsets with z3; a lemma '
+                'counterexample is shrunk, realised as a small plotfile and confirmed through the public API before it is reported.' % LEMMAS[pid] if pid in LEMMAS else ''),
+                'design_ref': 'DESIGN.md section ' + c['design']},
+            'level_note': c['note'] + (' The engine is validated on every run against the real tools on the repository\'s test assets (harness/conformance.py: byte-identical outputs).' if pid in CONF else ''),
+            'technique': c['technique'] + ('; Tier K lemma(s) ' + LEMMAS[pid] + ' (symbolic shapes, z3 NIA)' if pid in LEMMAS else ''),
         })
     na = []
     for pid in ALL:
